@@ -2,6 +2,6 @@
 # re-run every kept benign (property-preserving) change under /verif/benign against the current quick checks
 # usage: benign_all.sh [--all]   (3 in parallel; results in benign/<id>/result.json, summary in benign/RESULTS.md)
 cd "$(dirname "$0")/.."
-ls -d benign/C??-b? | xargs -P 3 -I{} sh -c 'd={}; id=$(basename $d); p=${id%%-*}; grep -q "not run" $d/result.json 2>/dev/null && exit 0; tools/benigncheck.py $d $p $id --keep '"$1"' > /dev/null 2>&1; echo "$id $(jq -c .alarms $d/result.json)"'
+ls -d benign/C??-[a-z]? | xargs -P 3 -I{} sh -c 'd={}; id=$(basename $d); p=${id%%-*}; grep -q "not run" $d/result.json 2>/dev/null && exit 0; tools/benigncheck.py $d $p $id --keep '"$1"' > /dev/null 2>&1; echo "$id $(jq -c .alarms $d/result.json)"'
 { echo "# Property-preserving changes (benign round) against the current quick checks"; echo; echo "| id | files | checks run | alarms |"; echo "|---|---|---|---|";
-  for d in benign/C??-b?; do jq -r '"| \(.id) | \((.files // [])|join(" ")) | \((.checks // {})|keys|join(" ")) | \((.alarms // [])|join(" ")) \(.note // "") |"' $d/result.json; done; } > benign/RESULTS.md
+  for d in benign/C??-[a-z]?; do jq -r '"| \(.id) | \((.files // [])|join(" ")) | \((.checks // {})|keys|join(" ")) | \((.alarms // [])|join(" ")) \(.note // "") |"' $d/result.json; done; } > benign/RESULTS.md
